@@ -279,6 +279,26 @@ Theorem logql_metric_correct_from_stored_data :
 Proof. exact metric_correct_db. Qed.
 Print Assumptions logql_metric_correct_from_stored_data.
 
+(* the same composition for topk / bottomk scripts *)
+Theorem topk_correct_from_stored_data :
+  forall re_match parse_float json_get (hash_labels : LogqlSem.labels -> Z),
+  (forall a b, hash_labels a = hash_labels b -> a = b) -> (forall a, 0 <= hash_labels a) ->
+  forall (fp : lmap -> N) (to_float : string -> Qc) (quantile_o : string -> list Qc -> Qc) (varpop stddevpop : list Qc -> Qc),
+  (forall a b, fp a = fp b -> a = b) ->
+  forall c d t fin p base,
+  analyze_m15 (STopK t) = false -> plan_metric (STopK t) fin = Some p -> script_ok (tk_inner t) -> 0 < c_step_ns c ->
+  db_ok c d -> fp_of_labels_ok d -> 0 <= c_from_ns c -> no_drop (sel_pipeline (log_part (STopK t))) = true ->
+  Permutation.Permutation base (base_of re_match parse_float json_get hash_labels (STopK t) c d) ->
+  match sem fp to_float quantile_o varpop stddevpop p c base with
+  | Some out =>
+    exists inner kept, inner_ref to_float quantile_o varpop stddevpop (tk_inner t) (map entry_of base) = Some (map strip inner) /\
+                       topk_spec (tk_len t) (tk_top t) inner kept /\
+                       map strip out = ref_step (c_step_ns c) (get_duration (STopK t)) (ref_cmp (tk_cmp t) (map strip kept))
+  | None => inner_ref to_float quantile_o varpop stddevpop (tk_inner t) (map entry_of base) = None
+  end.
+Proof. exact topk_correct_db. Qed.
+Print Assumptions topk_correct_from_stored_data.
+
 (* in table order both sides are one function of the stored data *)
 Theorem logql_metric_correct_from_stored_data_eq :
   forall re_match parse_float json_get (hash_labels : LogqlSem.labels -> Z),
